@@ -78,7 +78,7 @@ def follow(rv, path):
             if rv[0] != 'adt' or not rv[1].endswith('Result'):
                 raise Unsupported('err of non-result')
             if rv[2] == 0:
-                return ('absent',)
+                return ('noclaim',)
             rv = rv[3][0]
         elif step[0] == 'field':
             if rv[0] == 'adt':
@@ -122,6 +122,9 @@ class Machine:
         # parametric start: the scanner is started at an arbitrary offset of a longer buffer whose earlier content is unknown;
         # indices counted from the beginning of the buffer are then meaningless
         self.param_start = param_start
+        self.eager = False          # eager: fork on every byte class at a read (used for acceptor extraction)
+        self.edges = None           # when a list: every explored edge (origin, label, successor) is recorded
+        self.returns = []           # (origin config, return value, at_end) of every top-level return
 
     # ------------------------------------------------------------------ exploration
     def run(self):
@@ -165,6 +168,8 @@ class Machine:
             for label, nc in succs:
                 self.stats['transitions'] += 1
                 nc = self.canon(nc)
+                if self.edges is not None:
+                    self.edges.append((origin, label, nc))
                 if nc not in self.seen:
                     self.seen[nc] = (origin, label)
                     dq.append(nc)
@@ -239,9 +244,9 @@ class Machine:
         # keep what is known about the last read byte; with track_all (demand-driven, for scanners that look again at a
         # position they remembered) about every position the program still refers to
         if self.track_all:
-            nfacts = tuple(sorted((f(p), c) for (p, c) in facts if p in prog_refs))
+            nfacts = tuple(sorted((f(p), c) for (p, c) in facts if p in prog_refs or p == -1))
         else:
-            nfacts = tuple(sorted((f(p), c) for (p, c) in facts if p in prog_refs and p >= -1))
+            nfacts = tuple(sorted((f(p), c) for (p, c) in facts if p == -1))
         return (nstack, f(start_rel), nfacts, at_end, nh)
 
     # ------------------------------------------------------------------ values
@@ -291,8 +296,8 @@ class Machine:
         shifted = tuple((p - 1, cl) for (p, cl) in facts)
         for nh, cs in groups.items():
             nh2 = frozenset(self.spec.closure(nh))
-            cls = frozenset(cs)
-            out.append((('read', cls), (nstack, start_rel - 1, shifted + ((-1, cls),), None, nh2)))
+            for cls in ([frozenset([c]) for c in cs] if self.eager else [frozenset(cs)]):
+                out.append((('read', cls), (nstack, start_rel - 1, shifted + ((-1, cls),), None, nh2)))
         return out
 
     def classes_of(self, cfg, v):
@@ -385,6 +390,9 @@ class Machine:
                 val, ae = r[0], r[1]
                 nf = r[2] if len(r) > 2 else None
                 nl = list(locs)
+                if val is not None and val[0] == 'int' and body['locals'][st['place']['local']] == 'usize':
+                    # a usize is an index into the input: keep it relative to the cursor like every other position
+                    val = ('idx', val[1] + start_rel)
                 nl[st['place']['local']] = val
                 out.append((refine_label(facts, nf), goto(nl, bb, si + 1, at_end=ae, facts=nf)))
             return out
@@ -656,10 +664,13 @@ class Machine:
     # ------------------------------------------------------------------ return rule
     def check_return(self, cfg, rv):
         self.stats['returns'] += 1
+        self.returns.append((self.cur_origin, rv, cfg[3]))
         stack, start_rel, facts, at_end, hyps = cfg
         claims = {}
         for (mlo, mhi, path) in self.claims:
             v = follow(rv, path)
+            if v == ('noclaim',):
+                continue
             if v == ('absent',):
                 if mlo:
                     claims[mlo] = 'absent'
